@@ -501,3 +501,39 @@ Example C05_example_history :
   | _ => False
   end.
 Proof. vm_compute. intuition. Qed.
+
+(* time: the graffiti provider answers after 3 s of a 4 s context, the beacon node needs 200 ms, the
+   account 100 ms, the submitter 500 ms: nothing is cut, the requests are made at 0 / 3000 / 3000 /
+   3200 / 3200 ms with a live context, the block carries the graffiti, is handed to the submitter when
+   the signature is there (3300 ms) and Propose returns at 3800 ms *)
+Example C05_example_slow_graffiti :
+  let l := {| l_graffiti := 3000; l_auction := 0; l_proposal := 200; l_domain := 0; l_sign := 100; l_submit := 500 |} in
+  let e := ex_env ex_local AErr (GOk 8) [] in
+  let d := duty_after ex_cfg e ex_duty true in
+  let m := propose_t ex_cfg e l d in
+  budget e l < e_deadline e
+  /\ t_cuts m = no_cuts
+  /\ o_events (t_res m) = [EGraffiti 100 7; EAuction 100 9 3; EProposal 100 55 8 90; EDomain DOMAIN_BEACON_PROPOSER 3;
+                           ESignBlock 3 100 7 11 12 13 (DOMAIN_BEACON_PROPOSER, 3)]
+  /\ t_times m = [0; 3000; 3000; 3200; 3200] /\ t_live m = [true; true; true; true; true]
+  /\ t_t0 m = 3300 /\ t_ret m = 3800 /\ t_sub_cut m = false
+  /\ o_submit (t_res m) = Some (0, {| sp_version := VDeneb; sp_blinded := false;
+                                      sp_conts := [(CDeneb, {| sb_hdr := Some ex_hdr; sb_sig := 66; sb_blobs := 5 |})] |}).
+Proof. vm_compute. repeat split; reflexivity. Qed.
+
+(* time: a graffiti provider that never answers holds Propose until its context ends (the code gives
+   the lookup no deadline of its own); the beacon node is then asked with a context that is over, and
+   nothing is signed.  A provider that fails after 3 s costs 3 s: the beacon node is asked for an
+   ungraffitied block with 1 s left, and the block is submitted. *)
+Example C05_example_hanging_and_failing_graffiti :
+  let e g := ex_env ex_local ANone g [] in
+  let d := duty_after ex_cfg (e GErr) ex_duty true in
+  let hang := propose_t ex_cfg (e (GOk 8))
+                {| l_graffiti := 10000000; l_auction := 0; l_proposal := 0; l_domain := 0; l_sign := 0; l_submit := 0 |} d in
+  let fail := propose_t ex_cfg (e GErr)
+                {| l_graffiti := 3000; l_auction := 0; l_proposal := 0; l_domain := 0; l_sign := 0; l_submit := 0 |} d in
+  (o_events (t_res hang) = [EGraffiti 100 7; EProposal 100 55 0 90] /\ t_times hang = [0; 4000]
+   /\ t_live hang = [true; false] /\ o_submit (t_res hang) = None /\ t_ret hang = 4000)
+  /\ (t_times fail = [0; 3000; 3000; 3000] /\ t_live fail = [true; true; true; true]
+      /\ In (EProposal 100 55 0 90) (o_events (t_res fail)) /\ is_some (o_submit (t_res fail)) = true /\ t_ret fail = 3000).
+Proof. vm_compute. intuition. Qed.
